@@ -391,3 +391,33 @@ Theorem C12_new_map_code_no_crash : forall pf st mv keypairs,
   fn_NewMap (run_ValuesForPath pf st) run_addNewVal st mv keypairs <> Crash.
 Proof. exact new_map_code_no_crash. Qed.
 Print Assumptions C12_new_map_code_no_crash.
+
+(* ---- addNewVal and copyMapShallow themselves (newmap.go), translated from the current sources in cursor mode (the variable that
+   walks down the Map being built carries the function that rebuilds the root; translator/cursor.go): the translated code IS the
+   model [add_new_val] on every Map, path and value list, never panics; and the whole chain NewMap -> ValuesForPath / addNewVal ->
+   copyMapShallow, translated code only, is [new_map] on Go maps (distinct keys) (GenProofs/PureG32.v) *)
+From Mxj Require Import GenProofs.PureG32.
+
+Theorem C12_add_new_val_code_is_model : forall cms, (forall m, cms m = m) -> forall st n path val,
+  fn_addNewVal cms st n path val = Ret (add_new_val path (match val with [x] => x | _ => VList val end) n).
+Proof. exact add_new_val_code_is_model. Qed.
+Print Assumptions C12_add_new_val_code_is_model.
+
+Theorem C12_add_new_val_code_is_model_wf : forall st n path val, wfb (VMap n) = true ->
+  fn_addNewVal (run_copyMapShallow st) st n path val = Ret (add_new_val path (match val with [x] => x | _ => VList val end) n).
+Proof. exact add_new_val_code_is_model_wf. Qed.
+Print Assumptions C12_add_new_val_code_is_model_wf.
+
+Theorem C12_copy_map_shallow_code : forall st m, nodup_keys (map fst m) = true -> fn_copyMapShallow st m = Ret m.
+Proof. exact copy_map_shallow_code_id. Qed.
+Print Assumptions C12_copy_map_shallow_code.
+
+Theorem C12_new_map_code_is_model_full : forall pf st mv keypairs, g_fieldSep st <> [] -> wfb (VMap mv) = true ->
+  fn_NewMap (run_ValuesForPath pf st) (run_addNewVal_full st) st mv keypairs
+  = new_map_ctl (new_map pf (g_fieldSep st) (VMap mv) keypairs).
+Proof. exact new_map_code_is_model_full. Qed.
+Print Assumptions C12_new_map_code_is_model_full.
+
+Theorem C12_add_new_val_code_no_crash : forall cms st n path val, fn_addNewVal cms st n path val <> Crash.
+Proof. exact add_new_val_code_no_crash. Qed.
+Print Assumptions C12_add_new_val_code_no_crash.
